@@ -1,6 +1,6 @@
 (* C15 - run_application: every ending tears down the root context, exits as documented. *)
 From Coq Require Import List Bool Arith ZArith.
-From Asphalt Require Import Gen.Gen_exitcode Conc.Runner Conc.RunnerProofs.
+From Asphalt Require Import Gen.Gen_exitcode Gen.Gen_sighandler Conc.Runner Conc.RunnerProofs.
 Import ListNotations.
 Open Scope Z_scope.
 
@@ -133,3 +133,14 @@ Theorem C15_raised_are_the_raisers_that_ran : forall raisers o id,
   In id (raised_by raisers o) <-> In id (ran o) /\ In id raisers.
 Proof. exact raised_are_the_raisers_that_ran. Qed.
 Print Assumptions C15_raised_are_the_raisers_that_ran.
+
+(* handle_signals as read from the source on this run -- and what the model's `Sig` step is computed from: the
+   handler is a service task of the root context started, inside the startup scope, before the components; on
+   SIGTERM / SIGINT it cancels the startup scope (a startup still under way ends with the startup status) and sets
+   the event a started plain application waits for; only the first signal is handled *)
+Theorem C15_signal_handler_in_source :
+  sig_handler_is_service_task_of_root = true /\ sig_handler_started_before_components = true /\
+  sig_cancels_startup = true /\ sig_sets_event = true /\ sig_first_only = true /\
+  plain_application_waits_for_event = true.
+Proof. exact signal_handler_source_shape. Qed.
+Print Assumptions C15_signal_handler_in_source.
